@@ -275,7 +275,18 @@ class Interp:
         hk = self.hooks.get(cls.name)
         if hk is not None:
             return hk(self, list(args), kwargs)
-        o = Obj(cls, {})
+        kn, new = self.idx.find_method(cls, '__new__')
+        if new is not None:
+            # __new__ is an implicit static method that receives the class; what it returns IS the result of the call
+            # (a cached / shared instance included), and __init__ runs on it only if it is an instance of the class
+            if any(isinstance(d, ast.Name) and d.id in ('staticmethod', 'classmethod') for d in new.decorator_list):
+                self.fail(new, 'decorated __new__')
+            o = self.call_function(FuncRef(kn.mod, new, kn), args, kwargs, node, selfobj=ClassRef(cls))
+            if not isinstance(o, Obj) or o.cls is None or isinstance(o.cls, NTType) or not hasattr(o.cls, 'methods') \
+                    or cls not in self.idx.mro(o.cls):
+                return o
+        else:
+            o = Obj(cls, {})
         k, init = self.idx.find_method(cls, '__init__')
         if init is not None:
             self.call_function(FuncRef(k.mod, init, k), args, kwargs, node, selfobj=o)
@@ -530,6 +541,17 @@ class Interp:
                 return a * b
             if isinstance(op, ast.Mult) and isinstance(a, str) and isinstance(b, int):
                 return a * min(b, 4096)
+            if isinstance(op, ast.Mod) and isinstance(a, str):
+                # printf-style formatting of primitive values (anything else is outside the subset: fail closed,
+                # a PyExc here would claim a TypeError that Python does not raise)
+                import decimal
+                prim = (str, int, float, bool, type(None), decimal.Decimal)
+                if isinstance(b, prim) or (isinstance(b, tuple) and all(isinstance(x, prim) for x in b)):
+                    try:
+                        return a % b
+                    except (TypeError, ValueError) as ex:
+                        raise PyExc('%s: %s' % (type(ex).__name__, ex))
+                self.fail(node, 'str %% %s' % type(b).__name__)
         except ZeroDivisionError:
             raise PyExc('ZeroDivisionError')
         raise PyExc('TypeError in ' + ast.unparse(node)[:80])
@@ -787,6 +809,27 @@ class Interp:
 
     def call(self, e, env, mod, cls):
         fx = e.func
+        if isinstance(fx, ast.Attribute) and fx.attr == '__new__' and (
+                (isinstance(fx.value, ast.Name) and fx.value.id == 'object') or
+                (isinstance(fx.value, ast.Call) and isinstance(fx.value.func, ast.Name) and fx.value.func.id == 'super'
+                 and not fx.value.args and not fx.value.keywords and cls is not None)):
+            # super().__new__(C, ...) / object.__new__(C): the next __new__ after the running class in the MRO of C,
+            # object.__new__ (a fresh, empty instance of C) when there is none
+            args = [self.ev(a, env, mod, cls) for a in e.args]
+            if e.keywords or not args or not isinstance(args[0], ClassRef) or not hasattr(args[0].cls, 'methods'):
+                self.fail(e, '__new__ called on something else than an indexed class')
+            target = args[0].cls
+            if isinstance(fx.value, ast.Call):
+                mro = self.idx.mro(target)
+                if cls not in mro:
+                    self.fail(e, 'super().__new__: %s is not in the MRO of %s' % (cls.name, target.name))
+                for k in mro[mro.index(cls) + 1:]:
+                    if '__new__' in k.methods:
+                        return self.call_function(FuncRef(k.mod, k.methods['__new__'], k), args[1:], {}, e,
+                                                  selfobj=ClassRef(target))
+            if len(args) != 1:
+                raise PyExc('TypeError: object.__new__() takes exactly one argument (the type to instantiate)')
+            return Obj(target, {})
         if isinstance(fx, ast.Attribute) and isinstance(fx.value, ast.Call) and isinstance(fx.value.func, ast.Name) \
                 and fx.value.func.id == 'super' and not fx.value.args and not fx.value.keywords and cls is not None:
             # zero-argument super(): the next definition after the class the running code belongs to, in the MRO of the object
